@@ -128,4 +128,10 @@ theorem accepts_consistent (h : Header) (size : Nat) (es : List Entry) (hc : Con
 def sampleH : Header := { rootOffset := 127, rootLength := 10, metadataOffset := 137, metadataLength := 2, leafDirectoryOffset := 139, leafDirectoryLength := 0, tileDataOffset := 139, tileDataLength := 7, addressedTilesCount := 4, tileEntriesCount := 3, tileContentsCount := 2, clustered := true, minZoom := 0, maxZoom := 1, centerZoom := 0, minLonE7 := (-10), maxLonE7 := 10, minLatE7 := (-10), maxLatE7 := 10 }
 example : verify sampleH 146 [⟨0, 0, 3, 1⟩, ⟨1, 3, 4, 2⟩, ⟨4, 0, 3, 1⟩] = none := by decide
 
+/-- D25 (test): the maximum zoom is that of the last ADDRESSED tile — an archive whose only entry is a
+    run over tiles 0..4 (zoom 0 and all of zoom 1) is consistent with MaxZoom = 1, not with MaxZoom = 0 -/
+def runH (mz : Nat) : Header := { rootOffset := 127, rootLength := 10, metadataOffset := 137, metadataLength := 2, leafDirectoryOffset := 139, leafDirectoryLength := 0, tileDataOffset := 139, tileDataLength := 3, addressedTilesCount := 5, tileEntriesCount := 1, tileContentsCount := 1, clustered := true, minZoom := 0, maxZoom := mz, centerZoom := 0, minLonE7 := (-10), maxLonE7 := 10, minLatE7 := (-10), maxLatE7 := 10 }
+example : verify (runH 1) 142 [⟨0, 0, 3, 5⟩] = none := by decide
+example : verify (runH 0) 142 [⟨0, 0, 3, 5⟩] = some .maxZoom := by decide
+
 end Pm.C15
